@@ -768,6 +768,19 @@ fn process_request_obj(request: &Request, dbs: &Arc<Databases>, client: &mut Cli
 }
 
 fn lock_replication_order(dbs: &Arc<Databases>) -> std::sync::MutexGuard<'_, ()> {
+    // Under a scheduling harness a task must never block while it holds the baton
+    #[cfg(feature = "verif")]
+    loop {
+        match dbs.replication_order.try_lock() {
+            Ok(guard) => return guard,
+            Err(std::sync::TryLockError::Poisoned(poisoned)) => return poisoned.into_inner(),
+            Err(std::sync::TryLockError::WouldBlock) => {
+                if !crate::verif::yield_blocked("blocked.replication_order") {
+                    break;
+                }
+            }
+        }
+    }
     // A panic in a handler must not stop every later write
     dbs.replication_order
         .lock()
